@@ -29,14 +29,15 @@ Record wf (k : stage) (s : mstate) : Prop := mkWf {
   wf_ix : ix (it_of k s) < mlen s;
   wf_succ : succ_idx k s < mlen s;
   wf_slots : length (slots s) = mlen s;
-  wf_max : mlen s + mlen s < usize_max
+  wf_max : mlen s + mlen s < usize_max;
+  wf_ca : ca (it_of k s) <= mlen s        (* the remembered availability never exceeds the true one (Rel, I3), which is below len *)
 }.
 
 (** ** the kernels, lifted *)
 Lemma avail_kernel_run k s : wf k s ->
   run (avail_kernel k (env_of k s)) (local_of k s) = Some (fresh k s, mkL (ix (it_of k s)) (fresh k s), []).
 Proof.
-  intros [H1 H2 H3 H4]. unfold env_of, local_of, fresh, avail_of.
+  intros [H1 H2 H3 H4 _]. unfold env_of, local_of, fresh, avail_of.
   destruct k; simpl; [apply tie_prod_available | apply tie_work_available | apply tie_cons_available]; auto.
 Qed.
 
@@ -61,14 +62,17 @@ Qed.
 
 Lemma wf_check k n s : wf k s -> wf k (snd (check k n s)).
 Proof.
-  intros [H1 H2 H3 H4]. destruct (check_keeps_all k n s) as (A & B & _ & _ & _ & F & G & _).
+  intros [H1 H2 H3 H4 H5]. destruct (check_keeps_all k n s) as (A & B & _ & _ & _ & F & G & _).
   constructor; rewrite ?A, ?B, ?F, ?G; auto.
+  unfold check, refresh. destruct (n <=? ca (it_of k s)); cbn [snd]; [exact H5|].
+  unfold set_ca, set_it, it_of. cbn. rewrite tget_tset_same. cbn.
+  unfold fresh, avail_of, pavail, dist. destruct k; cases; lia.
 Qed.
 
 Lemma advance_run k n s : wf k s -> n <= mlen s ->
   run (g_advance (env_of k s) n) (local_of k s) =
   Some (tt, mkL (wadd (mlen s) (ix (it_of k s)) n) (ca (it_of k s) - n), [wadd (mlen s) (ix (it_of k s)) n]).
-Proof. intros [H1 H2 H3 H4] Hn. unfold env_of, local_of. apply tie_advance; auto. Qed.
+Proof. intros [H1 H2 H3 H4 _] Hn. unfold env_of, local_of. apply tie_advance; auto. Qed.
 
 (** the Model's [advance] of an attached iterator, componentwise *)
 Lemma advance_attached k n s : det (it_of k s) = false ->
@@ -122,6 +126,7 @@ Qed.
 Lemma env_check k n s : env_of k (snd (check k n s)) = env_of k s.
 Proof. destruct (check_keeps_all k n s) as (_ & B & _ & _ & _ & _ & G & _). unfold env_of. rewrite B, G. reflexivity. Qed.
 
+Lemma ltb01 : (0 <? 1) = true. Proof. reflexivity. Qed.
 Lemma ltb_true a b : a < b -> (a <? b) = true. Proof. intros. apply Nat.ltb_lt. auto. Qed.
 Lemma leb_true a b : a <= b -> (a <=? b) = true. Proof. intros. apply Nat.leb_le. auto. Qed.
 
@@ -142,7 +147,7 @@ Local Notation E := (denv_of k s src).
 Lemma ix_check n : ix (it_of k (snd (check k n s))) < length (slots s).
 Proof.
   destruct (check_keeps_all k n s) as (_ & _ & _ & _ & _ & F & _). cbv zeta in F. rewrite F.
-  destruct Hwf as [H1 _ H3 _]. lia.
+  destruct Hwf as [H1 _ H3 _ _]. lia.
 Qed.
 
 Definition grant_one_res (r : option loc) (d : dst) : Prop :=
@@ -217,7 +222,7 @@ Definition pop_res (mv : bool) (r : option cell) (d : dst) : Prop :=
   match r, o with Some v, OVal v' => v = v' | None, ONone => True | _, _ => False end.
 
 Lemma one_le_len k s0 : wf k s0 -> 1 <= mlen s0.
-Proof. intros [H _ _ _]. lia. Qed.
+Proof. intros [H _ _ _ _]. lia. Qed.
 
 Theorem tie_next : exists r d, drun (d_next E) (view C s out) = Some (r, d) /\ pop_res true r d.
 Proof.
@@ -271,3 +276,129 @@ Theorem tie_pop_wrappers :
   (exists r d, drun (d_pop E) (view C s out) = Some (r, d) /\ pop_res false r d).
 Proof. unfold d_pop_move, d_pop, drun. rewrite !pass_on. split; [apply tie_next | apply tie_next_duplicate]. Qed.
 End Pop.
+
+(** ** [_push] with the closures of [push] / [push_init] = the Model's [push] *)
+Section Push.
+Variables (s : mstate) (src out : list cell) (v : cell).
+Hypothesis Hwf : wf P s.
+Hypothesis Hatt : det (it_of P s) = false.
+Local Notation E := (denv_of P s src).
+
+Definition push_res (m : smode) (r : result unit cell) (d : dst) : Prop :=
+  let '(s', (o, evs)) := push m v s in
+  agrees P s' (match r with Ok _ => [tP (pub s')] | Err _ => [] end) evs d /\ d_out d = out /\
+  match r, o with Ok _, OOk => True | Err x, OErr y => x = y /\ x = v | _, _ => False end.
+
+Ltac push_tac :=
+  unfold view, push_res, push; dm; cbn [denv_of dn_E dn_avail dn_owned dn_src];
+  rewrite lift_check by exact Hwf; pose proof (ix_check P s Hwf 1) as Hi;
+  pose proof (wf_check P 1 s Hwf) as Hwf1; pose proof (env_check P 1 s) as He;
+  destruct (check P 1 s) as [g s1] eqn:Ck; cbn [fst snd] in *;
+  destruct (check_keeps_all P 1 s) as (A & B & Pb & Nd & Ow & Ix & Sc & Dt); rewrite Ck in *; cbn [snd] in *;
+  destruct g; dm;
+  [ rewrite lift_get_index; repeat (progress (dm; cbn [local_of l_index]; rewrite ?(ltb_true _ _ Hi)))
+  | eexists _, _; split; [reflexivity|]; unfold ret; split; [|split]; [constructor; cbn; auto | reflexivity | split; reflexivity] ].
+
+Theorem tie_push : exists r d, drun (d_push E v) (view P s out) = Some (r, d) /\ push_res SAssign r d.
+Proof.
+  unfold d_push, d__push, d_next_ref_mut_init, d_advance. push_tac.
+  rewrite (lift_advance P 1 s s1) by (first [exact Hwf1 | exact (one_le_len _ _ Hwf1) | symmetry; exact He]).
+  set (s2 := set_slots (upd (ix (it_of P s1)) v (slots s1)) s1).
+  assert (D2 : det (it_of P s2) = false) by (unfold s2, set_slots, it_of in *; cbn [its] in *; congruence).
+  destruct (advance_attached P 1 s2 D2) as (L & Pu & Sl & Ni & Ml & Oa).
+  eexists _, _. split; [reflexivity|]. unfold rete, slot. cbn [fst snd].
+  split; [|split]; [constructor; cbn [d_l d_slots d_pubs d_evs d_nid] | reflexivity | exact I].
+  - rewrite L. reflexivity.
+  - rewrite Sl. unfold s2. cbn. rewrite A. reflexivity.
+  - cbn [tget] in Pu. rewrite Pu. unfold s2. reflexivity.
+  - unfold ev. rewrite Oa. unfold s2. cbn [owned set_slots]. rewrite Ow, A.
+    destruct (owned s); cbn [app]; [|constructor]. apply Permutation_refl.
+  - rewrite Ni. unfold s2. cbn. auto.
+Qed.
+
+Theorem tie_push_init : exists r d, drun (d_push_init E v) (view P s out) = Some (r, d) /\ push_res SInit r d.
+Proof.
+  unfold d_push_init, d__push, d_next_ref_mut_init, d_advance. push_tac.
+  set (old := nth (ix (it_of P s1)) (slots s) 0%N).
+  destruct (isz old) eqn:Z; repeat (progress (dm; cbn [local_of l_index]; rewrite ?(ltb_true _ _ Hi)));
+  rewrite (lift_advance P 1 s s1) by (first [exact Hwf1 | exact (one_le_len _ _ Hwf1) | symmetry; exact He]);
+  set (s2 := set_slots (upd (ix (it_of P s1)) v (slots s1)) s1);
+  (assert (D2 : det (it_of P s2) = false) by (unfold s2, set_slots, it_of in *; cbn [its] in *; congruence));
+  destruct (advance_attached P 1 s2 D2) as (L & Pu & Sl & Ni & Ml & Oa);
+  (eexists _, _; split; [reflexivity|]); unfold rete, slot; cbn [fst snd];
+  (split; [|split]; [constructor; cbn [d_l d_slots d_pubs d_evs d_nid] | reflexivity | exact I]);
+  try (rewrite L; reflexivity); try (rewrite Sl; unfold s2; cbn; rewrite A; reflexivity);
+  try (cbn [tget] in Pu; rewrite Pu; unfold s2; reflexivity); try (rewrite Ni; unfold s2; cbn; auto; fail);
+  unfold ev; rewrite Oa; unfold s2; cbn [owned set_slots]; rewrite Ow, A; fold old; unfold store_ev; rewrite Z;
+  destruct (owned s); cbn [app]; try constructor; apply Permutation_refl.
+Qed.
+End Push.
+
+(** ** [_extract_item] with the closures of [copy_item] / [clone_item] = the Model's [extract_item] *)
+Section ExtractItem.
+Variables (s : mstate) (src : list cell) (o0 : cell).
+Hypothesis Hwf : wf C s.
+Hypothesis Hatt : det (it_of C s) = false.
+Local Notation E := (denv_of C s src).
+Local Notation out := [o0].
+
+Definition extract_item_res (cl : bool) (r : option unit) (d : dst) : Prop :=
+  let '(s', (o, evs)) := extract_item cl s in
+  agrees C s' (match r with Some _ => [tC (pub s')] | None => [] end) evs d /\
+  match r, o with Some _, ODst news => d_out d = news | None, ONone => d_out d = out | _, _ => False end.
+
+Ltac xi_tac :=
+  unfold view, extract_item_res, extract_item; dm; cbn [denv_of dn_E dn_avail dn_owned dn_src];
+  rewrite lift_check by exact Hwf; pose proof (ix_check C s Hwf 1) as Hi;
+  pose proof (wf_check C 1 s Hwf) as Hwf1; pose proof (env_check C 1 s) as He;
+  destruct (check C 1 s) as [g s1] eqn:Ck; cbn [fst snd] in *;
+  destruct (check_keeps_all C 1 s) as (A & B & Pb & Nd & Ow & Ix & Sc & Dt); rewrite Ck in *; cbn [snd] in *;
+  destruct g; dm;
+  [ rewrite lift_get_index; repeat (progress (dm; cbn [local_of l_index length upd nth]; rewrite ?(ltb_true _ _ Hi), ?ltb01))
+  | eexists _, _; split; [reflexivity|]; unfold ret; split; [constructor; cbn; auto | reflexivity] ].
+
+Theorem tie_copy_item : owned s = false ->
+  exists r d, drun (d_copy_item E (LDst 0)) (view C s out) = Some (r, d) /\ extract_item_res false r d.
+Proof.
+  intros Hpl. unfold d_copy_item, d__extract_item, d_next_ref, d_advance. xi_tac.
+  rewrite (lift_advance C 1 s s1) by (first [exact Hwf1 | exact (one_le_len _ _ Hwf1) | symmetry; exact He]).
+  assert (D2 : det (it_of C s1) = false) by congruence.
+  destruct (advance_attached C 1 s1 D2) as (L & Pu & Sl & Ni & Ml & Oa).
+  eexists _, _. split; [reflexivity|]. unfold rete, slot. cbn [fst snd].
+  split; [constructor; cbn [d_l d_slots d_pubs d_evs d_nid] | cbn [d_out]; rewrite A; reflexivity].
+  - rewrite L. reflexivity.
+  - rewrite Sl. auto.
+  - cbn [tget] in Pu. rewrite Pu. reflexivity.
+  - unfold ev. rewrite Oa, Ow, Hpl. constructor.
+  - rewrite Ni. auto.
+Qed.
+
+Theorem tie_clone_item :
+  exists r d, drun (d_clone_item E (LDst 0)) (view C s out) = Some (r, d) /\ extract_item_res true r d.
+Proof.
+  unfold d_clone_item, d__extract_item, d_next_ref, d_advance. xi_tac.
+  rewrite (lift_advance C 1 s s1) by (first [exact Hwf1 | exact (one_le_len _ _ Hwf1) | symmetry; exact He]).
+  unfold clones. rewrite Ow. cbn [length ids].
+  destruct (owned s) eqn:Own.
+  - set (s2 := set_nid (nid s1 + N.of_nat 1) s1).
+    assert (D2 : det (it_of C s2) = false) by (unfold s2, set_nid, it_of in *; cbn [its] in *; congruence).
+    destruct (advance_attached C 1 s2 D2) as (L & Pu & Sl & Ni & Ml & Oa).
+    eexists _, _. split; [reflexivity|]. unfold rete, slot. cbn [fst snd].
+    split; [constructor; cbn [d_l d_slots d_pubs d_evs d_nid] | cbn [d_out]; rewrite Nd; reflexivity].
+    + rewrite L. reflexivity.
+    + rewrite Sl. unfold s2. cbn. auto.
+    + cbn [tget] in Pu. rewrite Pu. reflexivity.
+    + unfold ev. rewrite Oa. unfold s2. cbn [owned set_nid]. rewrite Ow, A, Nd. cbn [clone_evs app].
+      apply Permutation_refl.
+    + rewrite Ni. unfold s2. cbn [nid set_nid]. rewrite Nd. cbn. lia.
+  - assert (D2 : det (it_of C s1) = false) by congruence.
+    destruct (advance_attached C 1 s1 D2) as (L & Pu & Sl & Ni & Ml & Oa).
+    eexists _, _. split; [reflexivity|]. unfold rete, slot. cbn [fst snd].
+    split; [constructor; cbn [d_l d_slots d_pubs d_evs d_nid] | cbn [d_out]; rewrite A; reflexivity].
+    + rewrite L. reflexivity.
+    + rewrite Sl. auto.
+    + cbn [tget] in Pu. rewrite Pu. reflexivity.
+    + unfold ev. rewrite Oa, Ow. constructor.
+    + rewrite Ni. auto.
+Qed.
+End ExtractItem.
